@@ -21,7 +21,7 @@ pub fn get() -> FunctionDefinitions {
                         return None;
                     }
                 }
-                Some(sum.into())
+                Some(sum).filter(|n| n.is_finite()).map(Into::into)
             }
         }
         Rc::new(Impl(args))
